@@ -395,15 +395,18 @@ class Program:
                     pre = [s for s in stmts if isinstance(s, ast.Assign) and isinstance(s.value, ast.Call) and (
                         (isinstance(s.value.func, ast.Attribute) and s.value.func.attr == "succeed") or
                         (isinstance(s.value.func, ast.Name) and s.value.func.id == "succeed"))
-                        and len(s.targets) == 1 and isinstance(s.targets[0], ast.Attribute)]
+                        and len(s.targets) == 1 and isinstance(s.targets[0], (ast.Attribute, ast.Name))]
                     if not pre:
                         continue
-                    base = ast.unparse(pre[0].targets[0].value)
+                    # the fired Deferred goes into a field of the request, or into a local stored there later: then the request
+                    # is whatever plain name has fields set to None in this block
+                    base = ast.unparse(pre[0].targets[0].value) if isinstance(pre[0].targets[0], ast.Attribute) else None
                     for s in stmts:
                         if isinstance(s, ast.Assign) and isinstance(s.value, ast.Constant) and s.value.value is None:
                             for t in s.targets:
                                 for tt in (t.elts if isinstance(t, (ast.Tuple, ast.List)) else [t]):
-                                    if isinstance(tt, ast.Attribute) and ast.unparse(tt.value) == base:
+                                    if isinstance(tt, ast.Attribute) and (ast.unparse(tt.value) == base or (
+                                            base is None and isinstance(tt.value, ast.Name) and tt.value.id != "self")):
                                         qos0.add(tt.attr)
         self._field_roles = {"alarm": alarm, "loop": loop, "mutable": mutable, "interval": interval, "qos0": qos0 | interval}
         return self._field_roles
